@@ -245,6 +245,15 @@ def _dotted(node):
 dotted = _dotted
 
 
+_PURE_BUILTINS = {"sorted": sorted, "min": min, "max": max, "sum": sum, "abs": abs, "bool": bool, "any": any, "all": all,
+                  "range": lambda *a: tuple(range(*a)) if len(range(*a)) <= 5000 else (_ for _ in ()).throw(ValueError("range too long")),
+                  "enumerate": lambda *a: tuple(enumerate(*a)), "zip": lambda *a: tuple(zip(*a)), "reversed": lambda a: tuple(reversed(a)),
+                  "divmod": divmod, "round": round, "ord": ord, "chr": chr, "repr": repr}
+_PURE_METHODS = {"index", "count", "lower", "upper", "strip", "lstrip", "rstrip", "split", "rsplit", "join", "format", "replace",
+                 "startswith", "endswith", "get", "keys", "values", "items", "find", "rfind", "partition", "rpartition", "title",
+                 "capitalize", "zfill", "isdigit", "isalpha", "union", "intersection", "difference", "copy", "splitlines", "encode"}
+
+
 class Program:
     def __init__(self, repo, pkg="pptx"):
         self.repo = os.path.abspath(repo)
@@ -680,10 +689,124 @@ class Program:
                     return Unknown("builtin", node)
             if fn == "cast" and len(node.args) == 2:
                 return ev(node.args[1])
+
+            def plain(v):
+                if isinstance(v, (Unknown, CallValue)):
+                    return False
+                if isinstance(v, (tuple, list, frozenset)):
+                    return all(plain(x) for x in v)
+                if isinstance(v, dict):
+                    return all(plain(x) for x in v.values())
+                return True
+
+            # pure builtins over folded values
+            if fn in _PURE_BUILTINS and not node.keywords and args and all(plain(a) for a in args) \
+                    and not any(isinstance(a, ast.Starred) for a in node.args):
+                try:
+                    r = _PURE_BUILTINS[fn](*args)
+                    return r if not hasattr(r, "__next__") else tuple(r)
+                except Exception as e:  # noqa: BLE001
+                    return Unknown("builtin %s: %s" % (fn, e), node)
+            # pure methods of folded str / tuple / list / dict values
+            if isinstance(node.func, ast.Attribute) and node.func.attr in _PURE_METHODS and not node.keywords:
+                recv = ev(node.func.value)
+                if isinstance(recv, (str, tuple, list, dict, frozenset)) and plain(recv) and all(plain(a) for a in args) \
+                        and hasattr(recv, node.func.attr):
+                    try:
+                        r = getattr(recv, node.func.attr)(*args)
+                        if isinstance(r, type({}.keys())) or isinstance(r, type({}.values())) or isinstance(r, type({}.items())):
+                            r = tuple(r)
+                        return r
+                    except Exception as e:  # noqa: BLE001
+                        return Unknown("method %s: %s" % (node.func.attr, e), node)
+            # repository helper whose value is one expression of its parameters (`def f(a, b): return E`)
+            if fn and depth < 30 and not any(isinstance(a, ast.Starred) for a in node.args):
+                tgt = self.resolve(module, fn) if "." not in fn or fn.split(".")[0] not in ("self", "cls") else None
+                if isinstance(tgt, FuncInfo) and tgt.cls is None and not tgt.node.decorator_list:
+                    body = [st for st in tgt.node.body if not (isinstance(st, ast.Expr) and isinstance(st.value, ast.Constant))]
+                    a = tgt.node.args
+                    if len(body) == 1 and isinstance(body[0], ast.Return) and body[0].value is not None \
+                            and not (a.vararg or a.kwarg or a.kwonlyargs):
+                        params = [x.arg for x in a.posonlyargs + a.args]
+                        defaults = dict(zip(params[-len(a.defaults):], a.defaults)) if a.defaults else {}
+                        kw = {k.arg: ev(k.value) for k in node.keywords if k.arg}
+                        fenv, okp = {}, True
+                        for i, pn in enumerate(params):
+                            if i < len(args):
+                                fenv[pn] = args[i]
+                            elif pn in kw:
+                                fenv[pn] = kw[pn]
+                            elif pn in defaults:
+                                fenv[pn] = self.const(defaults[pn], tgt.module, None, None, depth + 1)
+                            else:
+                                okp = False
+                        if okp and all(not isinstance(v, Unknown) for v in fenv.values()):
+                            r = self.const(body[0].value, tgt.module, fenv, None, depth + 1)
+                            if not isinstance(r, Unknown):
+                                return r
             if fn:
                 kwargs = {k.arg: ev(k.value) for k in node.keywords if k.arg}
                 return CallValue(fn, args, kwargs, node)
             return Unknown("call", node)
+        if isinstance(node, (ast.GeneratorExp, ast.ListComp, ast.SetComp, ast.DictComp)):
+            # comprehension over folded iterables
+            out = []
+
+            def bind(target, value, e2):
+                if isinstance(target, ast.Name):
+                    e2[target.id] = value
+                    return True
+                if isinstance(target, (ast.Tuple, ast.List)) and isinstance(value, (tuple, list)) and len(value) == len(target.elts):
+                    return all(bind(t, v, e2) for t, v in zip(target.elts, value))
+                return False
+
+            def go(gi, e2):
+                if len(out) > 2000:
+                    return False
+                if gi == len(node.generators):
+                    if isinstance(node, ast.DictComp):
+                        k, v = self.const(node.key, module, e2, cls, depth + 1), self.const(node.value, module, e2, cls, depth + 1)
+                        if isinstance(k, Unknown) or isinstance(v, Unknown):
+                            return False
+                        out.append((k, v))
+                    else:
+                        v = self.const(node.elt, module, e2, cls, depth + 1)
+                        if isinstance(v, Unknown):
+                            return False
+                        out.append(v)
+                    return True
+                g = node.generators[gi]
+                it = self.const(g.iter, module, e2, cls, depth + 1)
+                if isinstance(it, dict):
+                    it = tuple(it)
+                if not isinstance(it, (tuple, list, frozenset, str)):
+                    return False
+                for x in (sorted(it, key=repr) if isinstance(it, frozenset) else it):
+                    e3 = dict(e2)
+                    if not bind(g.target, x, e3):
+                        return False
+                    keep = True
+                    for c in g.ifs:
+                        t = self.const(c, module, e3, cls, depth + 1)
+                        if isinstance(t, (Unknown, CallValue)):
+                            return False
+                        if not t:
+                            keep = False
+                            break
+                    if keep and not go(gi + 1, e3):
+                        return False
+                return True
+
+            if not go(0, dict(env or {})):
+                return Unknown("comprehension", node)
+            try:
+                if isinstance(node, ast.DictComp):
+                    return dict(out)
+                if isinstance(node, ast.SetComp):
+                    return frozenset(out)
+                return out if isinstance(node, ast.ListComp) else tuple(out)
+            except TypeError:
+                return Unknown("comprehension value", node)
         if isinstance(node, ast.IfExp):
             t = ev(node.test)
             if isinstance(t, Unknown):
